@@ -95,6 +95,26 @@ def r_C08_C34(root):
     rev = ast.unparse(kws["reverse"]) == "True" if "reverse" in kws else False
     body = kws["key"].body if "key" in kws and isinstance(kws["key"], ast.Lambda) else None
     arg = kws["key"].args.args[0].arg if body is not None else None
+    if body is None and "key" in kws and isinstance(kws["key"], ast.Name):
+        kf = next((n for n in ast.walk(drv) if isinstance(n, ast.FunctionDef) and n.name == kws["key"].id), None)
+        if kf is not None and kf.args.args:
+            arg = kf.args.args[0].arg
+            rets_ = [r for r in kf.body if isinstance(r, ast.Return)]
+            if len(rets_) == 1:
+                # substitute names bound by tuple unpacking of the argument:  (a, b), _ = x   ->  a = x[0][0], b = x[0][1]
+                env_ = {}
+                for st_ in kf.body:
+                    if isinstance(st_, ast.Assign) and isinstance(st_.targets[0], ast.Tuple) and isinstance(st_.value, ast.Name) and st_.value.id == arg:
+                        for i_, e_ in enumerate(st_.targets[0].elts):
+                            if isinstance(e_, ast.Tuple):
+                                for j_, f_ in enumerate(e_.elts):
+                                    if isinstance(f_, ast.Name): env_[f_.id] = "%s[%d][%d]" % (arg, i_, j_)
+                            elif isinstance(e_, ast.Name): env_[e_.id] = "%s[%d]" % (arg, i_)
+                src_ = ast.unparse(rets_[0].value)
+                import re as _re
+                for k_, v_ in env_.items(): src_ = _re.sub(r"\b%s\b" % k_, v_, src_)
+                body = ast.parse(src_, mode="eval").body
+    if body is None: raise AnalysisError("span sort key is neither a lambda nor a local function with one return")
     def signs(e):
         """signs of (start, end) in the sort key"""
         u = ast.unparse(e).replace(" ", "")
@@ -217,11 +237,16 @@ def r_C05_C10(root):
             out.append(Finding("C05", "C05.b", M, "get_children.follow", "children_first", "collection order does not follow children_first"))
     else: out.append(Finding("C05", "C05.b", M, "get_children.follow", "children_first", "pre/post collection structure not found"))
     # C10
-    P = "textx/scoping/providers.py"; fo = find(load(root, P), "FQN.__call__._find_obj_fqn.find_obj"); inst += 1
-    loops = [n for n in fo.body if isinstance(n, ast.For) and any(isinstance(x, ast.Attribute) and x.attr == "__dict__" for x in ast.walk(n.iter)) or (isinstance(n, ast.For) and "_tx_attrs" in ast.unparse(n.iter))]
+    P = "textx/scoping/providers.py"; fo = find_i(root, P, "FQN.__call__._find_obj_fqn.find_obj"); inst += 1
+    fi_fo = sem.info(fo)
+    loops = []
+    for n in ast.walk(fo):
+        if isinstance(n, ast.For):
+            it = fi_fo.expand(n.iter, at=n.iter)
+            if any(isinstance(x, ast.Attribute) and x.attr == "__dict__" for x in ast.walk(it)) or "_tx_attrs" in ast.unparse(it): loops.append((n, it))
     if not loops: raise AnalysisError("FQN.find_obj: attribute walk not found")
-    walk = loops[0]
-    src = ast.unparse(walk.iter)
+    walk, walk_iter = loops[0]
+    src = ast.unparse(walk_iter)
     if ".cont" not in src and not any(".cont" in ast.unparse(g) for n in ast.walk(walk) for g, pol in guards(n) if pol and isinstance(n, ast.Return)):
         out.append(Finding("C10", "C10.a", P, "FQN.find_obj", src[:120], "candidate attributes are not restricted to containment (parent link and references are walked)", witness="package p { package q { } }  ref p.q.p"))
     inst += 1
@@ -229,12 +254,18 @@ def r_C05_C10(root):
     if br is None or not (any(isinstance(x, ast.Return) for b in br.body for x in ast.walk(b)) and any(isinstance(x, ast.Return) for b in br.orelse for x in ast.walk(b))):
         out.append(Finding("C10", "C10.c", P, "FQN.find_obj", "list / scalar branches", "one of the list-valued / single-valued branches does not return a match"))
     fr = find(load(root, P), "FQN.__call__._find_referenced_obj"); inst += 1
-    first = next((s for s in fr.body if isinstance(s, ast.Assign)), None); wl = next((s for s in fr.body if isinstance(s, ast.While)), None)
-    if not (first is not None and "_find_obj_fqn(p, name, cls)" in ast.unparse(first) and wl is not None and ast.unparse(wl.test) == "hasattr(p, 'parent')" and first.lineno < wl.lineno):
-        out.append(Finding("C10", "C10.b", P, "FQN._find_referenced_obj", ast.unparse(wl.test) if wl else "", "search does not start at the referencing object and continue outward through its ancestors"))
+    fif = sem.info(fr); cfgf = fif.cfg; p0 = fr.args.args[0].arg
+    searches = [n for n in cfgf.nodes if n.ast is not None and n.kind in ("stmt", "return", "cond") and any(callee_name(c) == "_find_obj_fqn" and c.args and ast.unparse(c.args[0]) == p0 for c in calls(n.ast))]
+    moves = [n for n in cfgf.nodes if n.kind == "stmt" and isinstance(n.ast, ast.Assign) and any(isinstance(tg, ast.Name) and tg.id == p0 for tg in n.ast.targets)]
+    starts_here = any(cfgf.paths_avoiding(cfgf.entry, s_, lambda n: n in moves) for s_ in searches) and not any(cfgf.paths_avoiding(cfgf.entry, m, lambda n: n in searches) for m in moves)            # the referencing object itself is searched before any step outward
+    only_parent = all(ast.unparse(m.ast.value).replace(" ", "") in (p0 + ".parent",) for m in moves)
+    repeats = any(cfgf.paths_avoiding(m, s_, lambda n: False) for m in moves for s_ in searches)           # after a step outward the search is repeated
+    if not (searches and moves and starts_here and only_parent and repeats):
+        out.append(Finding("C10", "C10.b", P, "FQN._find_referenced_obj", "search order", "search does not start at the referencing object and continue outward through its ancestors (starts at the object: %s, climbs only .parent: %s, repeats after climbing: %s)" % (bool(starts_here), only_parent, bool(repeats))))
     ff = find(load(root, P), "FQN.__call__._find_obj_fqn"); inst += 1
+    fiq = sem.info(ff)
     rets = [r for r in own_nodes(ff) if isinstance(r, ast.Return) and ast.unparse(r.value) == "p"]
-    if not rets or not all(any("textx_isinstance" in ast.unparse(g) for g, pol in guards(r) if pol) for r in rets): out.append(Finding("C10", "C10.b", P, "FQN._find_obj_fqn", "return p", "match returned without type conformance test"))
+    if not rets or not all(any(a.replace(" ", "").startswith("textx_isinstance(") and pol for a, pol in fiq.atoms_at(r)) for r in rets): out.append(Finding("C10", "C10.b", P, "FQN._find_obj_fqn", "return p", "match returned without type conformance test"))
     return inst, out
 def r_C02cd(root):
     pn = find(load(root, M), "parse_tree_to_objgraph.process_node"); out = []; inst = 0
@@ -280,7 +311,8 @@ def r_C16a(root):
     for c in calls(mm):
         if callee_name(c) in ("get_model_from_str", "get_model_from_file") and isinstance(c.func, ast.Attribute):
             inst += 1
-            recv = ast.unparse(c.func.value)
+            f_ = enclosing_func(c)
+            recv = ast.unparse(sem.info(f_).expand(c.func.value, at=c)) if f_ is not None else ast.unparse(c.func.value)
             if not recv.endswith(".clone()"): out.append(Finding("C16", "C16.a", "textx/metamodel.py", qualname(c), ast.unparse(c)[:80], "model loaded with the shared parser blueprint instead of a clone"))
     return inst, out
 def r_C28b_C33b_C30bc(root):
@@ -313,16 +345,26 @@ def r_C28b_C33b_C30bc(root):
         ok = any(s == "get_location(model_obj)" for s in star) or (star == ["loc"] and any(isinstance(n, ast.Assign) and ast.unparse(n) == "loc = get_location(model_obj)" for n in own_nodes(cp)))
         if not ok: out.append(Finding("C33", "C33.b", M, "call_obj_processors", ast.unparse(c)[:90], "object processor dispatched without the object's location"))
     tw = find(t, "textxerror_wrap.wrapper"); inst += 1
-    names, rows = atoms.table(tw.body[0].handlers[0].body, feasible=None)
+    tr_ = next((s_ for s_ in tw.body if isinstance(s_, ast.Try)), None)
+    if tr_ is None: raise AnalysisError("textxerror_wrap: try block not found")
+    broad = next((h for h in tr_.handlers if h.type is None or ast.unparse(h.type) in ("Exception", "BaseException")), None)
+    if broad is None: raise AnalysisError("textxerror_wrap: handler for non-textX exceptions not found")
+    dedicated = [h for h in tr_.handlers[:tr_.handlers.index(broad)] if h.type is not None and "TextXError" in ast.unparse(h.type)]
+    for h in dedicated:
+        if not (len(h.body) == 1 and isinstance(h.body[0], ast.Raise) and h.body[0].exc is None):
+            out.append(Finding("C33", "C33.b", M, "textxerror_wrap", " ".join(ast.unparse(h).split())[:80], "TextXError from the processor is not re-raised unchanged"))
+    names, rows = atoms.table(broad.body, feasible=None)
     for r in rows:
-        isx = next(a for a in names if a.startswith("isinstance(e, TextXError"))
-        if r.val.get(isx):
+        isx = next((a for a in names if a.startswith("isinstance(%s, TextXError" % (broad.name or "e"))), None)
+        if isx is None and not dedicated:
+            out.append(Finding("C33", "C33.b", M, "textxerror_wrap", "except %s" % (ast.unparse(broad.type) if broad.type else ""), "a TextXError raised by the processor is wrapped again instead of being re-raised unchanged")); break
+        if isx is not None and r.val.get(isx):
             if r.exit_text().strip() != "raise": out.append(Finding("C33", "C33.b", M, "textxerror_wrap", r.exit_text(), "TextXError from the processor is not re-raised unchanged")); break
         else:
             pos = [a for a in names if "hasattr(obj" in a]
             if all(r.val.get(a) for a in pos) and "get_location(obj)" not in r.exit_text(): out.append(Finding("C33", "C33.b", M, "textxerror_wrap", r.exit_text()[:80], "wrapped error carries no location")); break
     # C30.b/c
-    G = "textx/cli/generate.py"; g = load(root, G); gen = find(g, "generate.generate.generate")
+    G = "textx/cli/generate.py"; g = load(root, G); gen = find_i(root, G, "generate.generate.generate")
     inst += 2
     gcall = next((c for c in calls(gen) if ast.unparse(c.func) == "generator.generator"), None)
     checks = [s for s in ast.walk(gen) if isinstance(s, ast.Raise) and "TextXError" in ast.unparse(s)]
@@ -375,16 +417,16 @@ def r_C03de_C11a_C17bc(root):
     # C17.b/c
     S = "textx/scoping/__init__.py"; lm = find(load(root, S), "GlobalModelRepository.load_model"); inst += 1
     ld = next((c for c in calls(lm) if callee_name(c) == "internal_model_from_file"), None)
-    g = [ast.unparse(x) for x, pol in guards(ld)] if ld else []
-    pol = {ast.unparse(x): p for x, p in guards(ld)} if ld else {}
+    pol = {a.replace(" ", ""): p for a, p in sem.info(lm).atoms_at(ld)} if ld else {}
     if not (ld and pol.get("self.all_models.has_model(filename)") is False): out.append(Finding("C17", "C17.b", S, "GlobalModelRepository.load_model", ast.unparse(stmt_of(ld))[:60] if ld else "", "file is loaded although it is already in the shared repository"))
-    P = "textx/scoping/providers.py"; ic = find(load(root, P), "ImportURI.__call__"); inst += 1
+    P = "textx/scoping/providers.py"; ic = find_i(root, P, "ImportURI.__call__"); inst += 1
     seq = []
     for c in [c for c in calls(ic, own=True) if ast.unparse(c.func) == "self.scope_provider"]:
         a0 = ast.unparse(c.args[0]); src = a0
         if a0 != "obj":
             lp = next((a for a in ancestors(c) if isinstance(a, ast.For)), None); src = ast.unparse(lp.iter) if lp else a0
-        seq.append((c.lineno, "own" if a0 == "obj" else "local" if "local_models" in src else "builtin" if "builtin_models" in src else src))
+        nid = sem.info(ic).node_of(c)
+        seq.append((nid.id if nid is not None else c.lineno, "own" if a0 == "obj" else "local" if "local_models" in src else "builtin" if "builtin_models" in src else src))
     order = [k for _, k in sorted(seq)]
     if order != ["own", "local", "builtin"]: out.append(Finding("C17", "C17.c", P, "ImportURI.__call__", str(order), "lookup order must be: own model, loaded models, builtin models"))
     return inst, out
